@@ -108,9 +108,9 @@ func (r *Reader) getTopics() []string {
 // async commits.
 func (r *Reader) useSyncCommits() bool { return r.config.CommitInterval == 0 }
 
-func (r *Reader) unsubscribe() {
+func (r *Reader) unsubscribe(cancel context.CancelFunc) {
 	if verifOn { verifEvent("R.Unsubscribe", r, "begin") }
-	r.cancel()
+	cancel()
 	r.join.Wait()
 	if verifOn { verifEvent("R.Unsubscribe", r, "end") }
 	// it would be interesting to drain the r.msgs channel at this point since
@@ -348,6 +348,13 @@ func (r *Reader) run(cg *ConsumerGroup) {
 
 		r.subscribe(gen.Assignments)
 
+		// the function below must stop the fetchers of THIS generation only:
+		// when the generation has already ended, Start runs it as a loose go
+		// routine which may be scheduled after the next generation subscribed.
+		r.mutex.Lock()
+		cancel := r.cancel
+		r.mutex.Unlock()
+
 		gen.Start(func(ctx context.Context) {
 			r.commitLoop(ctx, gen)
 		})
@@ -359,7 +366,7 @@ func (r *Reader) run(cg *ConsumerGroup) {
 			case <-r.stctx.Done():
 				// this will be the last loop because the reader is closed.
 			}
-			r.unsubscribe()
+			r.unsubscribe(cancel)
 		})
 	}
 }
